@@ -443,7 +443,7 @@ func (m *Model) resolveAnchors() error {
 				continue
 			}
 			m.eachCall(fn, func(c ssa.CallInstruction) {
-				if c.Common().StaticCallee() != a.TxnRunner {
+				if callee := c.Common().StaticCallee(); callee != a.TxnRunner && !m.forwardsToRunner(callee) {
 					return
 				}
 				for _, arg := range c.Common().Args {
@@ -770,4 +770,26 @@ func (m *Model) AnchorReport() map[string]string {
 		out["UNRESOLVED:"+k] = p
 	}
 	return out
+}
+
+// forwardsToRunner: f is a thin wrapper that hands its own function-typed parameter to the
+// transaction runner (see runnerForwarders; usable before the allocator anchor is known).
+func (m *Model) forwardsToRunner(f *ssa.Function) bool {
+	if f == nil || f.Parent() != nil || len(f.Blocks) == 0 || m.A.TxnRunner == nil {
+		return false
+	}
+	found := false
+	m.eachCall(f, func(c ssa.CallInstruction) {
+		if c.Common().StaticCallee() != m.A.TxnRunner {
+			return
+		}
+		for _, arg := range c.Common().Args {
+			if p, ok := arg.(*ssa.Parameter); ok && p.Parent() == f {
+				if _, isFn := p.Type().Underlying().(*types.Signature); isFn {
+					found = true
+				}
+			}
+		}
+	})
+	return found
 }
